@@ -33,6 +33,7 @@ class Collector:
         self.results = []
         self.functions = {}
         self.trusted = set()
+        self.default_replay = None
 
     def function(self, qualname):
         node, seg, sha = intake.func(qualname)
@@ -56,6 +57,7 @@ class Collector:
         d = self._add(oid, 'vc', r)
         if smt_sample:
             d['sample'] = f'hyps={[str(h) for h in hyps][:12]} |- {str(z3.simplify(lhs))[:300]} == {str(z3.simplify(rhs))[:300]}'
+        replay = replay or self.default_replay
         if d['status'] == 'refuted' and replay is not None:
             try:
                 d['replay'] = replay(d)
@@ -106,6 +108,7 @@ class Collector:
         d = self._add(oid, 'vc', r)
         if sample:
             d['sample'] = f'hyps={[str(h) for h in hyps][:12]} |- {str(goal)[:400]}'
+        replay = replay or self.default_replay
         if d['status'] == 'refuted' and replay is not None:
             try:
                 d['replay'] = replay(d)
